@@ -162,16 +162,16 @@ blocks_upto.define = lambda db, k, B: z3.If(k <= 0, 0, blocks_upto(db, k - 1, B)
 CFGP = "self.config.param_lambda, {K}, {DB}, {a}, {b}, self.config.param_B, self.config.param_identifier_size"
 VALID_CFG = ["self.config.prf_f_output_length == self.config.param_lambda", "self.config.param_lambda >= 8",
              "self.config.param_B > 0", "self.config.param_identifier_size > 0"]
-contract(SCH + "._Gen", params=dict(self=SCHT), returns=KEYT,
+contract(SCH + "._Gen", modifies_ghost=["rng_n"], params=dict(self=SCHT), returns=KEYT,
          requires=["self.config.param_lambda >= 0"],
-         ensures=["len(result.K) == self.config.param_lambda"], props=["C01", "C03"])
+         ensures=["len(result.K) == self.config.param_lambda", "result.K == draw(old(rng_n))", "rng_n == old(rng_n) + 1"], props=["C01", "C03"])
 contract(SCH + "._Trap", params=dict(self=SCHT, K=KEYT, keyword=TBytes), returns=TOKT,
          requires=VALID_CFG + ["len(K.K) == self.config.param_lambda"],
          ensures=["result.K1 == prf('sha1', self.config.param_lambda, K.K, b'\\x01' + keyword)",
                   "result.K2 == prf('sha1', self.config.param_lambda, K.K, b'\\x02' + keyword)",
                   "len(result.K1) == self.config.param_lambda", "len(result.K2) == self.config.param_lambda"],
          props=["C01", "C02", "C03", "C07"])
-contract(SCH + "._Enc", params=dict(self=SCHT, K=KEYT, database=DBT), returns=EDBT,
+contract(SCH + "._Enc", modifies_ghost=["rng_n"], params=dict(self=SCHT, K=KEYT, database=DBT), returns=EDBT,
          requires=VALID_CFG + ["len(K.K) == self.config.param_lambda", "valid_db(database, self.config.param_identifier_size)"],
          ensures=["pk_repr(dmap(result.D), self.config.param_lambda, K.K, database, self.config.param_B, self.config.param_identifier_size)",
                   "len(result.D) == blocks_upto(database, len(database), self.config.param_B)"],
@@ -236,7 +236,7 @@ for m_ in ("KeyGen", "EDBSetup", "TokenGen", "Search"):
     inline(SCH + "." + m_)
 
 # C01 / C02 for PiPack: verified client code over the contracts of _Enc, _Trap, _Search (public wrappers inlined)
-contract("ghost:pipack_search_correct", params=dict(sse=SCHT, key=KEYT, database=DBT, keyword=TBytes), returns=REST,
+contract("ghost:pipack_search_correct", modifies_ghost=["rng_n"], params=dict(sse=SCHT, key=KEYT, database=DBT, keyword=TBytes), returns=REST,
          body="""def pipack_search_correct(sse, key, database, keyword):
     gK = key.K
     gDB = database
